@@ -94,16 +94,32 @@ fn outcome_ref(r: std::thread::Result<Option<Position>>, tlat: f64, tlon: f64, r
     v
 }
 
-/// DF17 frame carrying an airborne (TC 11) or surface (TC 7) position message.
-fn frame(kind: &str, parity: u64, yz: u64, xz: u64, fill: u64) -> Vec<u8> {
+/// Type codes of BDS 0,5 (barometric 9..=18, GNSS height 20..=22) and BDS 0,6 (5..=8); the
+/// frames rotate over them by vector index so that every point family meets every layout.
+const AIR_TC: [u64; 13] = [9, 20, 10, 11, 21, 12, 13, 22, 14, 15, 16, 17, 18];
+const SURF_TC: [u64; 4] = [5, 6, 7, 8];
+
+fn type_code(kind: &str, k: u64) -> u64 {
+    if kind == "air" {
+        AIR_TC[(k % 13) as usize]
+    } else {
+        SURF_TC[(k % 4) as usize]
+    }
+}
+
+/// DF17 frame carrying an airborne or surface position message with type code `tc`; the
+/// bits the property does not speak about (SS, SAF, altitude / movement, track, T) are
+/// filled from `fill`.
+fn frame(kind: &str, tc: u64, parity: u64, yz: u64, xz: u64, fill: u64) -> Vec<u8> {
     let icao = 0x400000 + (fill & 0xffff);
+    let t = (fill >> 5) & 1;
     let payload = if kind == "air" {
         // TC | SS | SAF | ALT | T | F | LAT-CPR | LON-CPR
         let alt = 0x010 | ((fill % 0x7f) << 5) | (fill & 0xf); // Q = 1, 25 ft code
-        pack(&[(5, 17), (3, 5), (24, icao), (5, 11), (2, 0), (1, 0), (12, alt), (1, 0), (1, parity), (17, yz), (17, xz)])
+        pack(&[(5, 17), (3, 5), (24, icao), (5, tc), (2, (fill >> 6) & 3), (1, (fill >> 4) & 1), (12, alt), (1, t), (1, parity), (17, yz), (17, xz)])
     } else {
         // TC | MOV | S | TRK | T | F | LAT-CPR | LON-CPR
-        pack(&[(5, 17), (3, 5), (24, icao), (5, 7), (7, fill % 125), (1, 1), (7, (fill >> 3) & 0x7f), (1, 0), (1, parity), (17, yz), (17, xz)])
+        pack(&[(5, 17), (3, 5), (24, icao), (5, tc), (7, fill % 125), (1, 1), (7, (fill >> 3) & 0x7f), (1, t), (1, parity), (17, yz), (17, xz)])
     };
     seal(&payload, 0)
 }
@@ -150,8 +166,10 @@ fn run_c04(vectors: &[Value], tr: &mut Trace) {
         let (l, m) = (geti(v, "L"), geti(v, "M"));
         let id = geti(v, "id");
         let (tlat, tlon) = (deg(l), deg(m));
-        let fe = frame("air", 0, geti(v, "yz0") as u64, geti(v, "xz0") as u64, id as u64);
-        let fo = frame("air", 1, geti(v, "yz1") as u64, geti(v, "xz1") as u64, id as u64);
+        // the two reports of a pair use different type codes (barometric / GNSS height mix)
+        let (tc0, tc1) = (type_code("air", id as u64), type_code("air", id as u64 / 13 + 4 * (id as u64 % 13) + 1));
+        let fe = frame("air", tc0, 0, geti(v, "yz0") as u64, geti(v, "xz0") as u64, id as u64);
+        let fo = frame("air", tc1, 1, geti(v, "yz1") as u64, geti(v, "xz1") as u64, id as u64);
         let (even, odd) = match (parse_air(&fe), parse_air(&fo)) {
             (Some(a), Some(b)) => (a, b),
             _ => {
@@ -164,7 +182,7 @@ fn run_c04(vectors: &[Value], tr: &mut Trace) {
         let ee = outcome(catch_unwind(|| airborne_position(&even, &even)), tlat, tlon);
         let oo = outcome(catch_unwind(|| airborne_position(&odd, &odd)), tlat, tlon);
         tr.emit(json!({
-            "e": "c04", "id": id, "fam": v["fam"], "L": l, "M": m, "parse": "ok",
+            "e": "c04", "id": id, "fam": v["fam"], "L": l, "M": m, "parse": "ok", "tc0": tc0, "tc1": tc1,
             // what the decoder was given, as parsed by rs1090 from the frames
             "p0": par(&even.parity), "yz0": even.lat_cpr, "xz0": even.lon_cpr,
             "p1": par(&odd.parity), "yz1": odd.lat_cpr, "xz1": odd.lon_cpr,
@@ -216,7 +234,8 @@ fn run_c05(vectors: &[Value], tr: &mut Trace) {
         let rlat = if slat > 0 { SPECIAL[slat] } else { deg(geti(v, "Lref")) };
         let rlon = if slon > 0 { SPECIAL[slon] } else { deg(geti(v, "Mref")) };
         let (tlat, tlon) = (deg(l), deg(m));
-        let f = frame(&kind, i, geti(v, "yz") as u64, geti(v, "xz") as u64, id as u64);
+        let tc = type_code(&kind, id as u64 / 10 + 3 * (id as u64 % 10));
+        let f = frame(&kind, tc, i, geti(v, "yz") as u64, geti(v, "xz") as u64, id as u64);
         let (res, p, yz, xz) = if kind == "air" {
             match parse_air(&f) {
                 Some(msg) => (
@@ -235,7 +254,7 @@ fn run_c05(vectors: &[Value], tr: &mut Trace) {
             }
         };
         tr.emit(json!({
-            "e": "c05", "id": id, "fam": v["fam"], "kind": kind, "i": i, "L": l, "M": m,
+            "e": "c05", "id": id, "fam": v["fam"], "kind": kind, "i": i, "L": l, "M": m, "tc": tc,
             "p": p, "yz": yz, "xz": xz,
             "rlat": micro(rlat), "rlon": micro(rlon), "rlatb": f64_bits(rlat), "rlonb": f64_bits(rlon),
             "dref": ruler_mm(tlat, tlon, rlat, rlon),
